@@ -150,7 +150,7 @@ func (r *run) state() St {
 	for _, tn := range r.cfg.Tokens {
 		tp := world.TokProj{St: "unborn", State: world.None}
 		if t, ok := r.w.Tokens[tn]; ok && t.Stored {
-			te, err := types.LoadServerLedActivationToken(r.w.Ctx, r.w.Inner, t.Id, r.w.StorageOpts()...)
+			te, err := types.LoadServerLedActivationToken(r.w.Ctx, r.w.Inner, t.Id, r.w.ObsOpts()...)
 			switch {
 			case err == nil:
 				if !r.w.AgeBoundary.IsZero() && !te.CreationTime.AsTime().After(r.w.AgeBoundary) {
@@ -868,7 +868,7 @@ func (r *run) keySource(src, which string) (*types.NodeCredentials, string) {
 		return ks, "cur:" + src
 	}
 	ck := w.EnsureCertKey(src)
-	ni, err := types.LoadNodeInformation(w.Ctx, w.Inner, ck.KeyId, w.StorageOpts()...)
+	ni, err := types.LoadNodeInformation(w.Ctx, w.Inner, ck.KeyId, w.ObsOpts()...)
 	if err != nil || ni.PreviousEncryptionKey == nil {
 		ks, _ := w.NodeSideKeySource("rand")
 		return ks, "rand"
